@@ -30,6 +30,7 @@ import IvpModel.Proofs.ReflectHairer
 import IvpModel.Proofs.ReflectDopri5
 import IvpModel.Proofs.ReflectDop853
 import IvpModel.Proofs.ScaleDopri5
+import IvpModel.Proofs.ScaleDop853
 
 noncomputable section
 variable {K : Type} [Field K] [LinearOrder K] [IsStrictOrderedRing K] [SqrtPow K]
@@ -214,6 +215,20 @@ theorem c13_scale_dopri5_whole_run {σ : Type} {n : Nat} (c : K) (hc : 0 < c) (L
       = (Ctl.hSolve (Ctl.dopri5Params L xend posneg uround safety scaleMin scaleMax beta hmax nmax nstiff dense) (Ctl.dopri5Kernel atol rtol)
         f ob obs0 x0 y0 firstStep (Ctl.hinitCall atol rtol x0 y0 posneg hmaxArg iord) fo hl fuel).map (Ctl.sResult c) := by
   have h := Ctl.dopri5Solve_scale c hc L xend posneg uround safety scaleMin scaleMax beta hmax nmax nstiff dense atol rtol f ob obs0 x0 y0
+    firstStep hmaxArg iord fo hl fuel
+  rw [Ctl.sRhs_of_homogeneous c hc.ne' f hf] at h
+  exact h
+
+/-- **Whole runs of DOP853 under a scaling of state and atol by `c > 0`**, automatic first step included. -/
+theorem c13_scale_dop853_whole_run {σ : Type} {n : Nat} (c : K) (hc : 0 < c) (L : Ctl.HLits K)
+    (xend posneg uround safety scaleMin scaleMax beta hmax : K) (nmax nstiff : Nat) (dense : Bool) (atol rtol : Ctl.Vec K n)
+    (f : Ctl.Rhs K n) (hf : ∀ j t y, f j t (vsmul c y) = vsmul c (f j t y)) (ob : Ctl.Obs σ K n) (obs0 : σ) (x0 : K) (y0 : Ctl.Vec K n)
+    (firstStep : Option K) (hmaxArg : K) (iord : Nat) (fo hl : K) (fuel : Nat) :
+    Ctl.hSolve (Ctl.dop853Params L xend posneg uround safety scaleMin scaleMax beta hmax nmax nstiff dense) (Ctl.dop853Kernel (vsmul c atol) rtol)
+        f (Ctl.sObs c ob) obs0 x0 (vsmul c y0) firstStep (Ctl.hinitCall (vsmul c atol) rtol x0 (vsmul c y0) posneg hmaxArg iord) fo hl fuel
+      = (Ctl.hSolve (Ctl.dop853Params L xend posneg uround safety scaleMin scaleMax beta hmax nmax nstiff dense) (Ctl.dop853Kernel atol rtol)
+        f ob obs0 x0 y0 firstStep (Ctl.hinitCall atol rtol x0 y0 posneg hmaxArg iord) fo hl fuel).map (Ctl.sResult c) := by
+  have h := Ctl.dop853Solve_scale c hc L xend posneg uround safety scaleMin scaleMax beta hmax nmax nstiff dense atol rtol f ob obs0 x0 y0
     firstStep hmaxArg iord fo hl fuel
   rw [Ctl.sRhs_of_homogeneous c hc.ne' f hf] at h
   exact h
